@@ -3750,13 +3750,16 @@ impl<'source> Parser<'source> {
             },
             'u' => match chars.next() {
                 Some('{') => {
-                    let mut code = 0;
+                    let mut code: u32 = 0;
 
                     while let Some(c) = chars.peek().cloned() {
                         if c.is_ascii_hexdigit() {
                             chars.next();
-                            code *= 16;
-                            code += c.to_digit(16).unwrap();
+                            // Saturate rather than overflow, codes with more than 8 digits
+                            // are out of range and get reported as such below.
+                            code = code
+                                .saturating_mul(16)
+                                .saturating_add(c.to_digit(16).unwrap());
                         } else {
                             break;
                         }
